@@ -42,8 +42,9 @@ func dupPart(c *vh.Ctx, m *vh.Model) {
 		scheds = append(scheds, genDup(c.Rng))
 	}
 	type res struct {
-		evs  []event.VerifEvent
-		dead string
+		evs    []event.VerifEvent
+		dead   string
+		panics []panicRec
 	}
 	results := make([]res, n)
 	var wg sync.WaitGroup
@@ -53,8 +54,8 @@ func dupPart(c *vh.Ctx, m *vh.Model) {
 		go func() {
 			defer wg.Done()
 			for i := range next {
-				evs, dead := runDup(scheds[i])
-				results[i] = res{evs, dead}
+				evs, dead, panics := runDup(scheds[i])
+				results[i] = res{evs, dead, panics}
 			}
 		}()
 	}
@@ -68,6 +69,11 @@ func dupPart(c *vh.Ctx, m *vh.Model) {
 	for i, r := range results {
 		s := scheds[i]
 		class := fmt.Sprintf("feed/duplicate-subscription/cap=%d/late2=%v/senders=%d", s.Cap, s.Late2, 1+btoi(s.Sends2 > 0))
+		if len(r.panics) > 0 {
+			c.Eval(class, "")
+			c.Violate("feed-panic/"+r.panics[0].Op, "aqua/event panicked in "+r.panics[0].Op+": "+r.panics[0].Val, map[string]interface{}{"dup_schedule": s, "panics": r.panics, "trace": evText(r.evs)})
+			continue
+		}
 		if r.dead != "" {
 			c.Eval(class, "")
 			c.Violate("deadlock", "channel subscribed twice: no progress", map[string]interface{}{"dup_schedule": s, "trace": evText(r.evs), "goroutines": r.dead})
@@ -98,7 +104,9 @@ func btoi(b bool) int {
 	return 0
 }
 
-func runDup(s dupSched) ([]event.VerifEvent, string) {
+func runDup(s dupSched) (evs []event.VerifEvent, dead string, panics []panicRec) {
+	pl := &panicLog{}
+	defer func() { panics = pl.list() }()
 	feed := new(event.Feed)
 	tr := event.VerifAttach(feed, s.Seed, 40, 5)
 	rng := vh.NewRNG(s.Seed)
@@ -130,19 +138,22 @@ func runDup(s dupSched) ([]event.VerifEvent, string) {
 	}
 	subscribe := func(ch chan int, id int) event.Subscription {
 		tr.Record("sub_call", id, 0)
-		sub := feed.Subscribe(ch)
+		var sub event.Subscription
+		pl.do("Subscribe", func() { sub = feed.Subscribe(ch) })
 		tr.Record("sub_ret", id, 0)
 		return sub
 	}
 	subs := [2]event.Subscription{}
-	subs[0] = subscribe(a, 1)
-	if !s.Late2 {
-		subs[1] = subscribe(a, 1)
-	}
-	subscribe(b, 2)
+	pl.guard(func() {
+		subs[0] = subscribe(a, 1)
+		if !s.Late2 {
+			subs[1] = subscribe(a, 1)
+		}
+		subscribe(b, 2)
+	})
 	wgR.Add(2)
-	go reader(a, 1)
-	go reader(b, 2)
+	go pl.guard(func() { reader(a, 1) })
+	go pl.guard(func() { reader(b, 2) })
 	var smu sync.Mutex
 	unsub := func(i int) {
 		defer wgW.Done()
@@ -154,7 +165,7 @@ func runDup(s dupSched) ([]event.VerifEvent, string) {
 			return
 		}
 		tr.Record("unsub_call", 1, 0)
-		sub.Unsubscribe()
+		pl.do("Unsubscribe", func() { sub.Unsubscribe() })
 		tr.Record("unsub_ret", 1, 0)
 	}
 	sender := func(first, n int) {
@@ -163,42 +174,44 @@ func runDup(s dupSched) ([]event.VerifEvent, string) {
 			for i := 0; i < 2; i++ {
 				if first == 1 && id-1 == s.UnsubAt[i] {
 					wgW.Add(1)
-					go unsub(i)
+					i := i
+					go pl.guard(func() { unsub(i) })
 				}
 			}
 			pause(rng, &rmu, 1)
 			tr.Record("send_call", id, 0)
-			n := feed.Send(id)
+			n := 0
+			pl.do("Send", func() { n = feed.Send(id) })
 			tr.Record("send_ret", id, n)
 		}
 	}
 	wgW.Add(1)
-	go sender(1, s.Sends)
+	go pl.guard(func() { sender(1, s.Sends) })
 	if s.Sends2 > 0 {
 		wgW.Add(1)
-		go sender(100, s.Sends2)
+		go pl.guard(func() { sender(100, s.Sends2) })
 	}
 	if s.Late2 {
 		wgW.Add(1)
-		go func() {
+		go pl.guard(func() {
 			defer wgW.Done()
 			pause(rng, &rmu, 3)
 			sub := subscribe(a, 1)
 			smu.Lock()
 			subs[1] = sub
 			smu.Unlock()
-		}()
+		})
 	}
 	done := make(chan string)
 	go func() { wgW.Wait(); close(done) }()
-	if _, stuck := blocked(done, watchdogDup); stuck {
+	if _, stuck := blockedOr(done, watchdogDup, func() bool { return len(pl.list()) > 0 }); stuck {
 		buf := make([]byte, 1<<15)
 		buf = buf[:runtime.Stack(buf, true)]
-		return event.VerifDetach(feed), string(buf)
+		return event.VerifDetach(feed), string(buf), nil
 	}
 	close(quit)
 	wgR.Wait()
-	return event.VerifDetach(feed), ""
+	return event.VerifDetach(feed), "", nil
 }
 
 // dupOracle evaluates the black-box statement on the history and renders the observables the model reports.
